@@ -146,6 +146,23 @@ fn scenario(sc: &Value) -> Value {
             let mut ended = false;
             let mut stuck = false;
             match consumer.as_str() {
+                "abandon" => {
+                    // the consumer takes at most one item, then drops the stream while its sender lives on
+                    let first = with_stream_first(&mut stream);
+                    if let Some(v) = first {
+                        verif::emit("h.item", &[("s", s as i64), ("x", v as i64)]);
+                        got.push(v);
+                    }
+                    verif::emit("h.abandon", &[("s", s as i64)]);
+                    drop(stream);
+                    ended = false;
+                    if delay == 0 {
+                        td_consumer.store(true, Ordering::SeqCst);
+                    }
+                    results.lock().unwrap().push(json!({"s": s, "got": got, "ended": ended, "stuck": false, "consumer": consumer,
+                                                        "elapsed_ms": t_conv.elapsed().as_millis() as u64}));
+                    return;
+                },
                 "manual" => {
                     let w = Arc::new(CountingWaker { s: s as i64, wakes: AtomicUsize::new(0), flag: Mutex::new(false), cv: Condvar::new() });
                     let waker = futures::task::waker(w.clone());
@@ -235,4 +252,23 @@ fn scenario(sc: &Value) -> Value {
     verif::emit("h.scenario.end", &[("id", id)]);
     let r = results.lock().unwrap().clone();
     json!({"id": id, "hang": hang, "streams": r})
+}
+
+/// First item of the stream if one shows up within 50 ms (used by the `abandon` consumer).
+fn with_stream_first(stream: &mut ipc_channel::asynch::IpcStream<u64>) -> Option<u64> {
+    let waker = futures::task::noop_waker();
+    let mut cx = Context::from_waker(&waker);
+    let t0 = std::time::Instant::now();
+    loop {
+        match stream.poll_next_unpin(&mut cx) {
+            Poll::Ready(Some(Ok(v))) => return Some(v),
+            Poll::Ready(_) => return None,
+            Poll::Pending => {
+                if t0.elapsed() > Duration::from_millis(50) {
+                    return None;
+                }
+                std::thread::sleep(Duration::from_millis(1));
+            },
+        }
+    }
 }
